@@ -8,6 +8,9 @@ META = {
   "at most VM_SPURIOUS spurious wake-ups per thread); the model resolves objects by ADDRESS, an unknown address is an assertion failure",
   "seq_wait_releases_via_api: the blocking point of pthread_cond_wait is emulated sequentially - the model releases the platform mutex, runs a second "
   "context to completion through the PUBLIC p_mutex_* / p_cond_variable_* API, then re-acquires for the waiter (one preemption, at the blocking point)",
+  "wake-delivery monitor (-DVM_WAKE_MONITOR): a thread the model woke by signal/broadcast must return from p_cond_variable_wait to the harness before the "
+  "library calls pthread_cond_wait for it again; spurious model wake-ups do not count, so an internal loop on spurious wake-ups alone stays legal "
+  "(pcondvariable.h asks callers to re-check their predicate and promises no filtering)",
   "completion = transition-time deadlock check (a thread blocks or finishes while a waiter has no pending wake-up and nobody else can run); "
   "spurious wake-ups never count as rescue",
   "'exchanges always complete' for unbounded threads/events follows from the decided wrapper effects (right handle pair, broadcast wakes all, "
@@ -30,20 +33,21 @@ MANIFEST = {
  "design_ref": "DESIGN.md §3 C03",
 }
 UNITS = ["src/pcondvariable-posix.c", "src/pmutex-posix.c"]
+LIBLOOP = 3   # global bound for loops not named in unwindset (the unchanged units have none: a loop added to the library cannot hang a query)
 FUNCS = ["p_cond_variable_new", "p_cond_variable_wait", "p_cond_variable_signal", "p_cond_variable_broadcast", "p_mutex_new", "p_mutex_lock", "p_mutex_unlock"]
 
 
 def seq(name, defs, nthr, nmtx, ncv, spurious=None):
     return Q(name, "harness/C03_seq.c", units=UNITS, models=PT, defs=defs + caps(nthr, nmtx=nmtx, ncv=ncv, spurious=spurious), includes=REDIR_PT,
-             funcs=FUNCS, timeout=300, bounds={"threads_in_model": nthr, "mutexes": nmtx, "conditions": ncv})
+             funcs=FUNCS, timeout=300, unwind=LIBLOOP, bounds={"threads_in_model": nthr, "mutexes": nmtx, "conditions": ncv})
 
 
 def buffer(events, ncons, spurious, timeout=1200):
     nt = ncons + 1
     waits = 1 + spurious + (1 if nt > 2 else 0)      # cond_wait calls per monitor entry; unwinding assertion proves sufficiency
     return Q("buffer_e%d_c%d_s%d" % (events, ncons, spurious), "harness/C03_buffer.c", units=UNITS, models=PT,
-             defs=["EVENTS=%d" % events, "NCONS=%d" % ncons] + caps(nt, nmtx=1, ncv=2, spurious=spurious), includes=REDIR_PT,
-             threads=True, flags=list(TFLAGS), funcs=FUNCS, timeout=timeout,
+             defs=["EVENTS=%d" % events, "NCONS=%d" % ncons] + caps(nt, nmtx=1, ncv=2, spurious=spurious), hdefs=["VM_WAKE_MONITOR"],
+             includes=REDIR_PT, threads=True, flags=list(TFLAGS), funcs=FUNCS, timeout=timeout, unwind=LIBLOOP,
              unwindset={"producer.0": waits + 1, "producer.1": events + 1, "consumer.0": waits + 1, "consumer.1": events // ncons + 1},
              bounds={"threads": nt, "events": events, "consumers": ncons, "capacity": 1, "spurious_wakeups_per_thread": spurious,
                      "cond_waits_per_monitor_entry": waits})
@@ -52,9 +56,17 @@ def buffer(events, ncons, spurious, timeout=1200):
 def gate(nwait, spurious, timeout=1200):
     nt = nwait + 1
     return Q("gate_w%d_s%d" % (nwait, spurious), "harness/C03_buffer.c", units=UNITS, models=PT,
-             defs=["MODE_GATE", "NWAIT=%d" % nwait] + caps(nt, nmtx=1, ncv=2, spurious=spurious), includes=REDIR_PT,
-             threads=True, flags=list(TFLAGS), funcs=FUNCS, timeout=timeout, unwindset={"waiter.0": 2 + spurious},
+             defs=["MODE_GATE", "NWAIT=%d" % nwait] + caps(nt, nmtx=1, ncv=2, spurious=spurious), hdefs=["VM_WAKE_MONITOR"], includes=REDIR_PT,
+             threads=True, flags=list(TFLAGS), funcs=FUNCS, timeout=timeout, unwind=LIBLOOP, unwindset={"waiter.0": 2 + spurious},
              bounds={"threads": nt, "waiters": nwait, "spurious_wakeups_per_thread": spurious})
+
+
+def wake(nthreads, spurious, timeout=600):
+    return Q("wake_delivered_%dthr_s%d" % (nthreads, spurious), "harness/C03_wake.c", units=UNITS, models=PT,
+             defs=["NTHREADS=%d" % nthreads] + caps(nthreads, nmtx=1, ncv=1, spurious=spurious), hdefs=["VM_WAKE_MONITOR", "VM_NO_DEADLOCK_CHECK"],
+             includes=REDIR_PT, threads=True, flags=list(TFLAGS), funcs=FUNCS, timeout=timeout, unwind=LIBLOOP,
+             bounds={"threads": nthreads, "scenario": "W1 waits; broadcast; a second thread enters the wait on the same condition before W1 re-acquired",
+                     "spurious_wakeups_per_thread": spurious, "loops_inside_the_library": "none in the unchanged units; a changed unit's loops are cut at %d with unwinding assertion" % LIBLOOP})
 
 
 def queries(tier):
@@ -62,11 +74,11 @@ def queries(tier):
           seq("seq_wait_handoff", ["Q_HANDOFF", "VM_PT_GHOST"], 2, 2, 2, spurious=1),
           seq("seq_return_codes", ["Q_RC", "VM_PT_FAULTS"], 1, 1, 1),
           Q("seq_wait_releases_via_api", "harness/C03_release.c", units=UNITS, models=PT, defs=caps(2, nmtx=2, ncv=2),
-            hdefs=["VM_CW_HOOK=other_context", "VM_CW_RELEASE"], includes=REDIR_PT, funcs=FUNCS + ["p_mutex_trylock"], timeout=300, unwind=3,
+            hdefs=["VM_CW_HOOK=other_context", "VM_CW_RELEASE"], includes=REDIR_PT, funcs=FUNCS + ["p_mutex_trylock"], timeout=300, unwind=LIBLOOP,
             bounds={"contexts": "A (waiter) + B (run to completion at A's blocking point, nested emulation)", "mutexes": 2, "conditions": 2,
                     "B_entry": "p_mutex_trylock or p_mutex_lock (symbolic)"})]
     if tier == "quick":
-        qs += [buffer(1, 1, 1), gate(1, 1), gate(2, 0)]
+        qs += [buffer(1, 1, 1), gate(1, 1), gate(2, 0), wake(2, 1), wake(3, 0)]
     else:
-        qs += [buffer(1, 1, 1), buffer(1, 1, 2), buffer(2, 1, 0, timeout=3000), gate(1, 1), gate(1, 2), gate(2, 0), gate(2, 1, timeout=3000)]
+        qs += [wake(2, 1), wake(3, 0), buffer(1, 1, 1), buffer(1, 1, 2), buffer(2, 1, 0, timeout=3000), gate(1, 1), gate(1, 2), gate(2, 0), gate(2, 1, timeout=3000)]
     return qs
